@@ -275,4 +275,21 @@ def serverExtWalk : Cur (List Nat) := do
   let r ← loopM serverExtBody fuel (0, 0)
   pure [r.1, r.2]
 
+/-! ### handshake message counter (`ctx.recv_message_seq`, dtls/mod.rs:740) -/
+
+/-- accepting one in-order message (after the `fix:` commit: `checked_add`, error on exhaustion) -/
+def seqAdvance (recvSeq : Nat) : Cur Nat :=
+  if recvSeq + 1 > 65535 then bail "DTLS_handshake_message_sequence_exhausted" else pure (recvSeq + 1)
+
+/-- pre-fix: `recv_message_seq += 1` on `u16` (`checked` = overflow checks of the build) -/
+def seqAdvanceUnfixed (checked : Bool) (recvSeq : Nat) : Cur Nat :=
+  if recvSeq + 1 > 65535 then (if checked then panicAt "add-overflow" else pure 0) else pure (recvSeq + 1)
+
+/-- `k` accepted in-order messages in a row -/
+def seqRun : Nat → Nat → Cur Nat
+  | 0, s => pure s
+  | k + 1, s => do
+    let s' ← seqAdvance s
+    seqRun k s'
+
 end RtcModel.C07.Dtls
